@@ -25,13 +25,37 @@ var loadRows = map[string]string{
 func loadTable(c *core.Ctx, initFn *ssa.Function, field string, maxLen int) (rs rows, runs int, undecided string) {
 	ro := c.Roles()
 	rs = rows{}
+	var add *ssa.Function
+	if recv := initFn.Signature.Recv(); recv != nil {
+		if T := core.NamedOf(recv.Type()); T != nil {
+			add = c.DeclaredMethod(T, "AddLoaders")
+			if add != nil && len(add.Params) != 2 {
+				add = nil
+			}
+		}
+	}
+	type variant struct {
+		n        int
+		twoPhase bool // Initialize with the first loader, add the rest, Initialize again: the second run is what counts
+	}
+	var variants []variant
 	for n := 0; n <= maxLen; n++ {
+		variants = append(variants, variant{n, false})
+	}
+	if add != nil {
+		for n := 2; n <= maxLen; n++ {
+			variants = append(variants, variant{n, true})
+		}
+	}
+	for _, vr := range variants {
+		n, twoPhase := vr.n, vr.twoPhase
 		var trace []string
 		var want []string
 		var wantErr bool
 		var stopped bool
+		quiet := false // first phase: every loader and the binder succeed
 		build := func() (absint.Oracle, []absint.Value, []absint.Value) {
-			trace, want, wantErr, stopped = nil, nil, false, false
+			trace, want, wantErr, stopped, quiet = nil, nil, false, false, false
 			t := newTbl(c)
 			cfg := absint.NewTok("configure", "configure")
 			binder := absint.NewTok("binder", "binder")
@@ -39,7 +63,10 @@ func loadTable(c *core.Ctx, initFn *ssa.Function, field string, maxLen int) (rs 
 			for i := 1; i <= n; i++ {
 				ls.Elems = append(ls.Elems, absint.NewTok(fmt.Sprintf("L%d", i), "loader"))
 			}
-			cfg.Fields[field] = ls
+			if field != "" && add == nil {
+				cfg.Fields[field] = ls
+			}
+			cfg.Attr["zeroed"] = absint.Bool(true) // a fresh Configure: what AddLoaders did not fill is empty
 			t.field = func(ip *absint.Interp, obj *absint.Tok, name string, typ types.Type) absint.Value {
 				if obj == cfg && types.IsInterface(typ) {
 					return binder
@@ -58,7 +85,7 @@ func loadTable(c *core.Ctx, initFn *ssa.Function, field string, maxLen int) (rs 
 						if !isTok {
 							panic(&absint.Undecided{Msg: "ordering helper applied to an unmodelled element"})
 						}
-						s := absint.NewTok("sorted:"+e.ID, "loader")
+						s := absint.NewTok("sorted:"+strings.TrimPrefix(e.ID, "sorted:"), "loader")
 						out.Elems = append(out.Elems, s)
 					}
 					trace = append(trace, "sort("+absint.Show(in)+")")
@@ -72,6 +99,9 @@ func loadTable(c *core.Ctx, initFn *ssa.Function, field string, maxLen int) (rs 
 					want = append(want, "<nothing after the failure>")
 				}
 				want = append(want, "load("+id+")")
+				if quiet {
+					return absint.Tuple{&absint.List{Elems: []absint.Value{absint.NewTok("bytes("+id+")", "bytes")}}, absint.Nil{}}
+				}
 				switch ip.Choose(3, "loader outcome") {
 				case 0:
 					b := &absint.List{Elems: []absint.Value{absint.NewTok("bytes("+id+")", "bytes")}}
@@ -85,16 +115,46 @@ func loadTable(c *core.Ctx, initFn *ssa.Function, field string, maxLen int) (rs 
 			}
 			t.invoke[ro.BinderSetConfig] = func(ip *absint.Interp, a []absint.Value) absint.Value {
 				trace = append(trace, "set("+absint.Show(a[1])+")")
+				if quiet {
+					return absint.Nil{}
+				}
 				if ip.Choose(2, "binder outcome") == 1 {
 					wantErr, stopped = true, true
 					return t.newErr("bind")
 				}
 				return absint.Nil{}
 			}
+			if add != nil {
+				// the loaders are registered the way users register them: one AddLoaders call with the first, one
+				// with the rest (so the list the start routine loads from is whatever AddLoaders fills, wherever it lives)
+				ip0 := absint.New(t)
+				ip0.IsLog, ip0.InScope = core.IsLogCall, c.InScope
+				for k, part := range [][]absint.Value{ls.Elems[:min(1, len(ls.Elems))], ls.Elems[min(1, len(ls.Elems)):]} {
+					if len(part) == 0 {
+						continue
+					}
+					if out := ip0.Run(add, []absint.Value{cfg, &absint.List{Elems: append([]absint.Value(nil), part...)}}, nil); out.Undecided != nil {
+						panic(&absint.Undecided{Msg: "AddLoaders: " + out.Undecided.Msg})
+					} else if out.Panic != nil {
+						panic(&absint.Undecided{Msg: "AddLoaders panics: " + out.Panic.Msg})
+					}
+					if k == 0 && twoPhase {
+						// a first start with the first loader alone, everything succeeding
+						quiet = true
+						if out := ip0.Run(initFn, []absint.Value{cfg}, nil); out.Undecided != nil {
+							panic(&absint.Undecided{Msg: "first Initialize: " + out.Undecided.Msg})
+						} else if out.Panic != nil {
+							panic(&absint.Undecided{Msg: "first Initialize panics: " + out.Panic.Msg})
+						}
+						quiet = false
+						trace, want = nil, nil
+					}
+				}
+			}
 			return t, []absint.Value{cfg}, nil
 		}
 		check := func(ip *absint.Interp, out absint.Outcome) {
-			w := fmt.Sprintf("%d loader(s): trace=%v => %s", n, trace, showOutcome(out))
+			w := fmt.Sprintf("%d loader(s) (re-initialised after adding all but the first: %v): trace=%v => %s", n, twoPhase, trace, showOutcome(out))
 			if out.Panic != nil {
 				rs.fail("error", "PANIC "+w)
 				return
